@@ -34,7 +34,7 @@ CHECKS = {
    text="Every step of every recorded history (up to 12 operations on 2-12 currency markets, float and dual quotes) is an action of the specification; values, gradients by name fx_<pair> (or the quote's own variables) and Hessians are recomputed by TLC from the spec state built from the latest quotes.",
    note="Sensitivities to 1e-9 of the sum of absolute terms; Hessians on all pairs up to 4 currencies and a probe subset above; order reset by update is modelled, not judged."),
  "C01": dict(engine="num", cat="model_checking", design="5/C01",
-   technique="TLA+ register machine over by-name dual numbers (DualAlgebra/NumVM): TLC explores every program of depth <= 2 (thorough 3) and checks the textbook rules against finite differences of an independent float evaluator; TLC-written exhaustive depth-1 programs (all layout pairs x operators x owned/borrowed and float-left/right forms) and seeded random programs are executed on the real crate and every instruction is validated by TLC against the logged operands",
+   technique="TLA+ register machine over by-name dual numbers (DualAlgebra/NumVM): TLC explores every program of depth <= 2 (thorough 3) and checks the textbook rules against finite differences of an independent float evaluator; TLC-written exhaustive depth-1 programs (all layout pairs x operators x owned/borrowed and float-left/right forms) and seeded random programs are executed on the real crate and every instruction is validated by TLC against the logged operands; the Python-facing arithmetic methods (__add__ ... __pow__, PyNum.tla) are judged by the same rules",
    text="The rules are validated against calculus inside TLC; every operator impl the macros generate is called once per layout pair, and compositions of depth 3-8 are validated step by step, so rounding never accumulates and a wrong sign/factor/index in one variant is an O(1) error against a 1e-9 tolerance.",
    note="Sampled real points, not all reals; non-differentiable points and ill-conditioned magnitudes are skipped and counted; FP.java primitives and TLC trusted."),
  "C02": dict(engine="num", cat="model_checking", design="5/C02",
